@@ -3,6 +3,7 @@ result against the objective written in each estimator's documentation (transcri
 skglm's datafit / penalty classes)."""
 import copy
 import math
+import os
 import warnings
 
 import numpy as np
@@ -39,6 +40,9 @@ class EstCase:
         return dict(estimator=self.name, kwargs=kw, X=self.X.tolist(), y=np.asarray(self.y).tolist())
 
     def signature(self, **kw):
+        if self.name == "GLE":
+            return dict(estimator="GLE", datafit=self.kwargs["datafit"], solver=self.kwargs["solver"],
+                        fit_intercept=bool(self.kwargs.get("fit_intercept", False)), positive=False, **kw)
         return dict(estimator=self.name, fit_intercept=bool(self.kwargs.get("fit_intercept", False)),
                     positive=bool(self.kwargs.get("positive", False)), **kw)
 
@@ -46,6 +50,22 @@ class EstCase:
         shim()
         import skglm
         from skglm.experimental.sqrt_lasso import SqrtLasso
+        if self.name == "GLE":
+            # GeneralizedLinearEstimator(datafit, penalty, solver) assembled from plain arguments
+            import skglm.datafits as D
+            import skglm.penalties as P
+            import skglm.solvers as S
+            kw = dict(self.kwargs, **over)
+            dname = kw["datafit"]
+            datafit = D.Huber(1.35) if dname == "Huber" else getattr(D, dname)()
+            pk = kw["penalty"]
+            penalty = (P.L1(kw["alpha"]) if pk == "L1" else P.L1_plus_L2(kw["alpha"], 0.5) if pk == "L1_plus_L2"
+                       else P.WeightedL1(kw["alpha"], np.asarray(kw["weights"], float)))
+            skw = dict(tol=kw["tol"], fit_intercept=kw["fit_intercept"], max_iter=kw.get("max_iter", 100))
+            if kw["solver"] == "AndersonCD":
+                skw["max_epochs"] = 50000
+            solver = getattr(S, kw["solver"])(**skw)
+            return skglm.GeneralizedLinearEstimator(datafit, penalty, solver)
         cls = SqrtLasso if self.name == "SqrtLasso" else getattr(skglm, self.name)
         return cls(**dict(self.kwargs, **over))
 
@@ -182,6 +202,19 @@ def gen_data(rng, name):
         if not np.any(s):
             s[0] = 1.0
         y = np.column_stack([tm, s])
+    elif name.startswith("GLE:"):
+        dname = name.split(":")[1]
+        X = X * 0.5
+        s = X @ wt
+        if dname == "Logistic":
+            y = np.where(s + np.array([rng.gauss(0, 1) for _ in range(n)]) > 0, 1.0, -1.0)
+            y[0], y[1] = 1.0, -1.0
+        elif dname == "Poisson":
+            y = np.array([float(rng.randrange(0, 6)) for _ in range(n)])
+        elif dname == "Gamma":
+            y = np.exp(0.3 * s) * np.array([rng.uniform(0.5, 1.5) for _ in range(n)])
+        else:
+            y = s + 0.3 * np.array([rng.gauss(0, 1) for _ in range(n)])
     else:
         y = X @ wt + 0.3 * np.array([rng.gauss(0, 1) for _ in range(n)]) + rng.choice([0.0, 0.0, 3.0])
     return X, y
@@ -190,6 +223,18 @@ def gen_data(rng, name):
 def gen_est(rng, name=None):
     name = name or rng.choice(["Lasso", "WeightedLasso", "ElasticNet", "MCPRegression", "GroupLasso",
                                "MultiTaskLasso", "SparseLogisticRegression", "LinearSVC", "CoxEstimator", "SqrtLasso"])
+    if name == "GLE":
+        dname = rng.choice(["Quadratic", "Huber", "Logistic", "Poisson", "Gamma"])
+        X, y = gen_data(rng, "GLE:" + dname)
+        n, p = X.shape
+        solver = "AndersonCD" if dname in ("Quadratic", "Huber") else rng.choice(["ProxNewton", "ProxNewton", "AndersonCD"]) \
+            if dname == "Logistic" else "ProxNewton"
+        pk = rng.choice(["L1", "L1_plus_L2", "WeightedL1"])
+        kw = dict(datafit=dname, penalty=pk, alpha=rng.choice([0.01, 0.05, 0.1]), solver=solver, tol=rng.choice([1e-6, 1e-8]),
+                  fit_intercept=rng.random() < 0.5, max_iter=100)
+        if pk == "WeightedL1":
+            kw["weights"] = np.array([rng.choice([0.5, 1.0, 2.0]) for _ in range(p)])
+        return EstCase("GLE", kw, X, y)
     X, y = gen_data(rng, name)
     n, p = X.shape
     fi = rng.random() < 0.5
@@ -318,11 +363,13 @@ def run_containers(ctx, rep):
     rng = ctx.rng
     for _ in range(ctx.n(40, 400)):
         name = rng.choice(["Lasso", "ElasticNet", "WeightedLasso", "SparseLogisticRegression", "LinearSVC",
-                           "GroupLasso", "MultiTaskLasso", "MCPRegression"])
+                           "GroupLasso", "MultiTaskLasso", "MCPRegression", "GLE", "GLE", "GLE"])
         case = gen_est(rng, name)
         base, err = fit_case(case)
         if err:
             continue
+        if name == "GLE":
+            name = "GLE:" + case.kwargs["datafit"] + ":" + case.kwargs["solver"]
         tol = case.kwargs.get("tol", 1e-6)
         ref_coef = np.asarray(base.coef_, float)
         variants = dict(C_order=np.ascontiguousarray(case.X), csc=sparse.csc_matrix(case.X),
@@ -452,6 +499,83 @@ def snapshot(*arrs):
     return [None if a is None else (np.array(a, copy=True) if isinstance(a, np.ndarray) else copy.deepcopy(a)) for a in arrs]
 
 
+def _fits_in_fresh_process(case):
+    """fit the case in a fresh interpreter (empty compile cache); True if it succeeds"""
+    import pickle
+    import subprocess
+    import sys
+    import tempfile
+    with tempfile.NamedTemporaryFile(suffix=".pkl", delete=False) as fh:
+        pickle.dump(dict(name=case.name, kwargs=case.kwargs, X=case.X, y=case.y, groups=case.groups), fh)
+        path = fh.name
+    code = ("import pickle, sys, warnings; warnings.filterwarnings('ignore'); sys.path.insert(0, %r); "
+            "from harness.props import est_common as E; d = pickle.load(open(%r, 'rb')); "
+            "E.shim(); c = E.EstCase(d['name'], d['kwargs'], d['X'], d['y'], d.get('groups')); est, e = E.fit_case(c); "
+            "print('FRESH-OK' if e is None else 'FRESH-ERR ' + e)") % (os.path.dirname(os.path.dirname(os.path.dirname(os.path.abspath(__file__)))), path)
+    try:
+        out = subprocess.run([sys.executable, "-c", code], capture_output=True, text=True, timeout=900,
+                             env=dict(os.environ)).stdout
+    finally:
+        os.unlink(path)
+    return "FRESH-OK" in out
+
+
+def run_cache(ctx, rep):
+    """K-level: sequences of jit_cached_compile requests vs the cache state machine of the Lean model; and the
+    precision of the class each request gets"""
+    import numba
+    import skglm.datafits as D
+    import skglm.penalties as P
+    from skglm.utils.jit_compilation import jit_cached_compile, spec_to_float32
+    from .. import lean
+    rng = ctx.rng
+    protos = [D.Quadratic(), D.Huber(1.0), D.Logistic(), D.Poisson(), P.L1(0.1), P.L1_plus_L2(0.1, 0.5), P.MCPenalty(0.1, 3.0),
+              P.WeightedL1(0.1, np.ones(3)), P.SCAD(0.1, 3.7), P.IndicatorBox(1.0)]
+    lines, metas = [], []
+    for _ in range(ctx.n(6, 40)):
+        def f32_ok(inst):
+            # spec_to_float32 refuses (ValueError "Unknown spec type") specs with fields that are neither float64 nor
+            # arrays, e.g. the `positive` flag of penalties: estimators only ever request float32 *datafits*
+            sp = inst.get_spec() or ()
+            return all(t == numba.float64 or isinstance(t, numba.core.types.npytypes.Array) for _, t in sp)
+        reqs = [(k_, f_ and f32_ok(protos[k_])) for k_, f_ in
+                ((rng.randrange(len(protos)), rng.random() < 0.5) for _ in range(rng.randrange(3, 12)))]
+        seen, ids, bad = {}, [], []
+        for k, f32 in reqs:
+            inst = protos[k]
+            spec = inst.get_spec()
+            try:
+                cls = jit_cached_compile(inst.__class__, spec, f32)
+            except Exception as e:   # noqa: BLE001
+                bad.append(f"{type(inst).__name__} f32={f32}: {classify_exc(e)}")
+                ids.append("none")
+                continue
+            ids.append(seen.setdefault(id(cls), len(seen)))
+            # the class a request gets has the requested precision on every float field
+            want = dict((spec_to_float32(spec) if f32 else spec) or ())
+            got = dict(cls.class_type.struct)
+            if {n: str(t) for n, t in want.items()} != {n: str(t) for n, t in got.items()}:
+                rep.violate("jit_cached_compile returns a class compiled for another precision / spec than requested",
+                            dict(site="jit_cached_compile", kind="wrong-class"),
+                            input=dict(requests=[(type(protos[a]).__name__, b) for a, b in reqs], at=len(ids) - 1),
+                            impl_output={n: str(t) for n, t in got.items()}, oracle={n: str(t) for n, t in want.items()})
+        line = "cache_hist " + " ".join([str(len(reqs))] + [f"{k} 0 {'1' if f else '0'}" for k, f in reqs])
+        lines.append(line)
+        metas.append((reqs, ids, bad))
+    outs = lean.drive(lines)
+    for line, out, (reqs, ids, bad) in zip(lines, outs, metas):
+        rep.count("cache:history", False, ("cache", line))
+        m = out.split()
+        i = [f"i{x}" if x != "none" else "none" for x in ids]
+        # identities are compared up to renaming in order of first appearance (both sides number that way)
+        if i != m:
+            rep.disagree("K:cache", line, i, m, dict(site="jit_cached_compile"),
+                         input=dict(requests=[(type(protos[a]).__name__ if False else a, b) for a, b in reqs]))
+        for b_ in bad:
+            rep.violate("jit_cached_compile raises on a legitimate request: " + b_, dict(site="jit_cached_compile", kind="raises"),
+                        input=dict(requests=reqs))
+
+
 def run_purity(ctx, rep):
     rng = ctx.rng
     for _ in range(ctx.n(30, 300)):
@@ -464,13 +588,27 @@ def run_purity(ctx, rep):
         if err:
             continue
         results = []
-        for c in hist:
+        for hi, c in enumerate(hist):
+            # some members of the history are fitted on single-precision data (the compiled classes are cached per
+            # class, spec and precision): the target is always double precision
+            f32 = hi < len(hist) - 1 and c.name in ("Lasso", "WeightedLasso") and rng.random() < 0.5
+            if f32:
+                c = copy.copy(c)
+                c.X = np.asfortranarray(c.X.astype(np.float32))
+                c.kwargs = dict(c.kwargs, tol=1e-4)     # single precision cannot reach 1e-8
+                c.y = np.asarray(c.y).astype(np.float32) if c.name != "SparseLogisticRegression" else c.y
             X0, y0 = c.X.copy(), np.array(c.y, copy=True)
             w0 = snapshot(c.kwargs.get("weights"))[0]
             est, e = fit_case(c)
-            rep.count(f"history:{c.name}", False, ("hist", c.name, len(rep.nontrivial)))
+            rep.count(f"history:{c.name}{':float32' if f32 else ''}", False, ("hist", c.name, len(rep.nontrivial)))
             sig = c.signature(site=f"{c.name}.fit")
             if e:
+                # a valid fit that fails here: does the same fit succeed in a fresh interpreter?
+                ok_fresh = _fits_in_fresh_process(c)
+                if ok_fresh:
+                    rep.violate(f"{c.name}.fit fails after the fits performed before it in the process ({e[:120]}) "
+                                "and succeeds in a fresh interpreter", dict(sig, kind="history-failure"),
+                                case=c.describe(), impl_output=e, history=[h.name for h in hist[:hi]], float32=f32)
                 continue
             if not np.array_equal(X0, c.X) or not np.array_equal(y0, np.asarray(c.y)):
                 rep.violate(f"{c.name}.fit modified its input X or y", dict(sig, kind="input-modified"), case=c.describe())
